@@ -254,7 +254,7 @@ macro "frame_cases" : tactic =>
 
 @[simp] theorem core_inboundData (a : Agent) (now : Nat) (l : Cand) (src len : Nat) :
     (a.inboundData now l src len).1.core = a.core := by
-  unfold Agent.inboundData
+  unfold Agent.inboundData Agent.enqueue
   frame_cases
 
 /-- `setSelector()` resets exactly the selector part of the projection. -/
